@@ -197,15 +197,27 @@ fn c11(r: &mut Rng, i: u64, p: &HashMap<String, String>) -> Vec<Value> {
     f.odd_href = r.chance(1, 2);
     f.sup = r.chance(1, 4);
     let mut g = G::new(r, f);
-    let body = g.flow(0);
+    let mut body = g.flow(0);
+    // a shape of its own: an ordered list whose last number is 9 / 99 / 999 (the marker width changes right after
+    // it), inside 0-2 prefixed blocks, with a link or a word in the items; narrow widths, larger minimum wrap widths
+    let edge = r.chance(1, 6);
+    if edge {
+        let last = *r.pick(&[9i64, 9, 99, 999, 10, 100]);
+        let m = r.range(1, 3) as i64;
+        let items: Vec<N> = (0..m).map(|k| N::el("li", vec![if r.chance(1, 2) { N::ela("a", vec![("href", "//0.0/1".to_string())], vec![N::T(format!("w{}", k))]) } else { N::T(format!("word{} x", k)) }])).collect();
+        let mut node = N::ela("ol", vec![("start", format!("{}", last - m + 1))], items);
+        for _ in 0..r.below(3) { node = match r.below(3) { 0 => N::el("blockquote", vec![node]), 1 => N::el("ul", vec![N::el("li", vec![node])]), _ => N::el("dl", vec![N::el("dd", vec![node])]) }; }
+        body = vec![node];
+    }
     let html = doc_html(&body);
-    let bytes = if r.chance(1, 3) { mutate(r, html.as_bytes()) } else { html.into_bytes() };
+    let bytes = if !edge && r.chance(1, 3) { mutate(r, html.as_bytes()) } else { html.into_bytes() };
     let deco = deco_std(r);
-    let ops = any_opts(r);
+    let mut ops = any_opts(r);
+    if edge { ops.retain(|o| o[0] != "min_wrap"); if r.chance(2, 3) { ops.push(json!(["min_wrap", r.range(4, 9)])); } }
     let mut ops_o = ops.clone();
     ops_o.push(json!(["overflow"]));
     let route = if deco == "rich" { "lines" } else { "string" };
-    let w = r.range(1, wmax(p, 60));
+    let w = if edge { r.range(1, 14) } else { r.range(1, wmax(p, 60)) };
     vec![json!({"id": id("c11", i), "runs": [
         tagged(run_hx(&bytes, 0, cfg(deco, ops.clone()), route), "zero"),
         tagged(run_hx(&bytes, w, cfg(deco, ops), route), "base"),
@@ -303,12 +315,12 @@ fn c13(r: &mut Rng, i: u64, p: &HashMap<String, String>) -> Vec<Value> {
 
 /// C15: base configuration vs base + one option.
 fn c15(r: &mut Rng, i: u64, p: &HashMap<String, String>) -> Vec<Value> {
-    let opt = *r.pick(&["max_wrap", "pad", "strike", "noborders", "raw", "footnotes", "nolinkwrap", "min_wrap"]);
+    let opt = *r.pick(&["max_wrap", "pad", "strike", "noborders", "raw", "footnotes", "nolinkwrap", "min_wrap", "rawoff"]);
     let mut f = if r.chance(1, 2) { Feat::all() } else { Feat::notables() };
     // half of the documents have nothing the option applies to
     if r.chance(1, 2) {
         match opt { "strike" => f.strike = false, "footnotes" | "nolinkwrap" => f.links = false,
-                    "noborders" | "raw" => { f.tables = false; }
+                    "noborders" | "raw" | "rawoff" => { f.tables = false; }
                     "min_wrap" => { f.tables = false; f.lists = false; f.quotes = false; f.heads = false; f.dl = false; }
                     _ => {} }
     }
@@ -319,7 +331,7 @@ fn c15(r: &mut Rng, i: u64, p: &HashMap<String, String>) -> Vec<Value> {
     let deco = *r.pick(&["plain", "rich", "trivial", "plain_nd"]);
     let mut base: Vec<Value> = opts_c02(r).into_iter().filter(|o| {
         let n = o[0].as_str().unwrap_or("");
-        !(n == opt || (opt == "noborders" && n == "raw") || (opt == "raw" && n == "noborders"))
+        !(n == opt || (opt == "noborders" && n == "raw") || (opt == "raw" && n == "noborders") || (opt == "rawoff" && n == "raw"))
     }).collect();
     let w = if r.chance(2, 3) { r.range(1, 30) } else { r.range(1, wmax(p, 100)) };
     let mut arg = json!(0);
@@ -330,6 +342,8 @@ fn c15(r: &mut Rng, i: u64, p: &HashMap<String, String>) -> Vec<Value> {
         "strike" => { base.push(json!(["strike", true])); with.push(json!(["strike", false])); }
         "noborders" => with.push(json!(["noborders"])),
         "raw" => with.push(json!(["raw", true])),
+        // raw_mode(false) is no option at all: in particular it must not bring back borders that were turned off before
+        "rawoff" => { if !base.iter().any(|o| o[0] == "noborders") { base.insert(0, json!(["noborders"])); with.insert(0, json!(["noborders"])); } with.push(json!(["raw", false])); }
         "footnotes" => { base.push(json!(["footnotes", true])); with.push(json!(["footnotes", false])); }
         "nolinkwrap" => with.push(json!(["nolinkwrap"])),
         _ => { let k = r.range(0, 10); arg = json!(k); with.push(json!(["min_wrap", k])); }
@@ -712,6 +726,7 @@ fn any_config(r: &mut Rng, bounded_width: bool) -> (Value, &'static str) {
 fn c01(r: &mut Rng, i: u64, p: &HashMap<String, String>) -> Vec<Value> {
     let maxdepth: u64 = p.get("depth").and_then(|s| s.parse().ok()).unwrap_or(3000);
     let shape = if p.get("shape").map(|s| s == "deep").unwrap_or(false) { 5 } else { r.below(11) };
+    let mut levels = 0u64;
     let bytes: Vec<u8> = match shape {
         0 | 1 | 2 | 3 => { let mut f = if r.chance(1, 2) { Feat::all() } else { Feat::notables() }; f.ids = r.chance(1, 3); f.sup = r.chance(1, 3);
                            let mut g = G::new(r, f); let body = g.flow(0);
@@ -721,6 +736,7 @@ fn c01(r: &mut Rng, i: u64, p: &HashMap<String, String>) -> Vec<Value> {
         5 | 6 => { // deep nesting
             let d = if p.get("shape").is_some() { maxdepth } else { *r.pick(&[100u64, 100, 1000, 1000, 1000, maxdepth]) };
             let tag = *r.pick(&["<div>", "<ul><li>", "<table><tr><td>", "<blockquote>", "<b>", "<span>", "<ol><li>", "<dl><dd>", "<em>", "<a href=x>", "<h2>", "<s>", "<sup>", "<pre>", "<p><span>", "<table><tr><td><ul><li>", "<div id=q>", "<span id=q>"]);
+            levels = d;
             let mut s = String::new(); for _ in 0..d { s.push_str(tag); } s.push_str("deep text here"); if r.chance(1, 2) { s.push_str(&"</div></li></td></blockquote>".repeat(3)); }
             s.into_bytes() }
         7 => { // hostile numeric attributes
@@ -747,7 +763,7 @@ fn c01(r: &mut Rng, i: u64, p: &HashMap<String, String>) -> Vec<Value> {
     let (w, wx): (u64, Option<&str>) = match wsel { 0 => (0, None), 1 => (1, None), 2 => (2, None), 3 => (3, None), 4 => (100000, None), 5 => (0, Some("max")), 6 => (0, Some("max-1")), 99 => (r.range(1, 30), None), _ => (r.range(1, 200), None) };
     let (mut cfgv, mut route) = any_config(r, wx.is_none() && w <= 200);
     let deep = (shape == 5 || shape == 6) && bytes.len() >= 3000;
-    if deep && bytes.len() > 20_000 {
+    if deep && levels > 1000 {
         // beyond ~1000 levels only configurations whose output stays linear in the depth: annotated output carries the
         // whole annotation vector on every piece of text (quadratic for elements that add text of their own at every
         // level), and nested tables with overflow allowed draw one ever wider border per level
@@ -884,6 +900,31 @@ fn c19(r: &mut Rng, i: u64, p: &HashMap<String, String>) -> Vec<Value> {
 /// C18: hide a random set of subtrees by class / id / element name / descendant of a marked element /
 /// inline style / height:0 + overflow:hidden; the generator also writes the document without them.
 fn c18(r: &mut Rng, i: u64, p: &HashMap<String, String>) -> Vec<Value> {
+    // a shape of its own: mis-nested inline formatting (the parser moves the children of the block into a clone of the
+    // inline element) with a rule that reaches the hidden element through a combinator
+    if r.chance(1, 10) {
+        let (inl, blk) = (*r.pick(&["em", "b", "strong", "i"]), *r.pick(&["p", "div"]));
+        let t: Vec<String> = (0..5).map(|k| format!("t{}{}", (b'a' + k as u8) as char, (b'a' + r.below(26) as u8) as char)).collect();
+        let doc = |hidden: &str| format!("<div class=\"d\">{} <{inl} class=\"k\"><{blk}>{} {}</{inl}> {}</{blk}> {}</div>", t[0], t[1], hidden, t[3], t[4]);
+        let span = format!("<span class=\"s\">{}</span>", t[2]);
+        let selname = if blk == "p" { "p" } else { "div" };
+        let sel = match r.below(4) {
+            0 => json!([{"comb": "", "name": "", "star": false, "cls": ["k"], "id": "", "nth": []}, {"comb": "desc", "name": "", "star": false, "cls": ["s"], "id": "", "nth": []}]),
+            1 => json!([{"comb": "", "name": inl, "star": false, "cls": [], "id": "", "nth": []}, {"comb": "desc", "name": "span", "star": false, "cls": [], "id": "", "nth": []}]),
+            2 => json!([{"comb": "", "name": "", "star": false, "cls": ["k"], "id": "", "nth": []}, {"comb": "child", "name": "span", "star": false, "cls": [], "id": "", "nth": []}]),
+            _ => json!([{"comb": "", "name": selname, "star": false, "cls": [], "id": "", "nth": []}, {"comb": "child", "name": inl, "star": false, "cls": [], "id": "", "nth": []}, {"comb": "child", "name": "", "star": false, "cls": ["s"], "id": "", "nth": []}]),
+        };
+        let author = json!([rule(vec![sel], vec![json!({"prop": "display", "val": "none", "imp": false})])]);
+        let style = sheet_text(&author, r, &canonical());
+        let wrap = |b: String| format!("<html><head><style>{}</style></head><body>{}</body></html>", style, b);
+        let (h1, h2) = (wrap(doc(&span)), wrap(doc("<!---->")));
+        let deco = *r.pick(&["plain", "rich", "plain_nd"]);
+        let route = if deco == "rich" { "lines" } else { "string" };
+        let w = r.range(4, wmax(p, 60));
+        let on = cfg(deco, vec![json!(["doccss"])]);
+        return vec![json!({"id": id("c18", i), "meta": {"css": {"agent": [], "user": [], "author": author}},
+                           "runs": [run(&h1, w, on.clone(), route), run(&h2, w, on, route)]})];
+    }
     // a richer document: block grammar with lists, quotes, headings, links, tables
     let mut f = if r.chance(1, 3) { Feat::all() } else { Feat::notables() };
     f.ids = r.chance(1, 3); f.pre = r.chance(1, 3);      // ids: fragment markers of hidden subtrees must vanish too
@@ -1003,8 +1044,14 @@ fn c17(r: &mut Rng, i: u64, p: &HashMap<String, String>) -> Vec<Value> {
             let canon = sheet_text(&sheet, r, &canonical());
             let v = Vary { on: true, drop_semi: r.chance(1, 3), double_semi: r.chance(1, 6), junk: r.chance(1, 2), unknown_props: r.chance(1, 2) };
             let var = sheet_text(&sheet, r, &v);
-            let (ops1, ops2, h1, h2) = if r.chance(1, 2) {
+            let (ops1, ops2, h1, h2) = if r.chance(1, 3) {
                 (vec![json!(["doccss"])], vec![json!(["doccss"])], css_doc_html(&canon, &body), css_doc_html(&var, &body))
+            } else if r.chance(1, 2) {
+                // every <style> element is a sheet of its own: a broken one (an unterminated statement that selects
+                // nothing) in front of the real one must not swallow any of its rules
+                let junk = *r.pick(&["@import url(extra.css)", "h9 { color: blue", "@media print { h9 { color: red }", "h9 { color: red; /* open", "h9[x=\"y { color: red }", "@charset \"utf-8\"", "h9, "]);
+                let h2 = css_doc_html(&var, &body).replacen("<style>", &format!("<style>{}</style><style>", junk), 1);
+                (vec![json!(["doccss"])], vec![json!(["doccss"])], css_doc_html(&canon, &body), h2)
             } else {
                 let h = css_doc_html("", &body);
                 (vec![json!(["css", canon])], vec![json!(["css", var])], h.clone(), h)
